@@ -3,7 +3,6 @@ import FairModel.Lemmas.BaseMetrics
 import FairModel.Lemmas.WeightedMean
 import FairModel.Properties.C01
 import FairModel.Model.Fairness
-import FairModel.Lemmas.AggregateCache
 
 /-! Helper lemmas for C03:
   A. on binary {0,1} data the confusion-matrix rates of `BaseMetrics` (as called with
